@@ -2,6 +2,7 @@ package main
 
 import (
 	"fmt"
+	"time"
 )
 
 // Engine wfault — decides C14 by enumerating fault sequences on the writer seam.
@@ -30,7 +31,9 @@ func execWfault(spec *RunSpec, st *Stats) *Violation {
 		if pre.Kind == "PkgConvert" {
 			cfg = Config{}
 		}
-		_ = runSolo(cfg, spec.Docs, pre)
+		if _, timedOut := runSoloDeadline(cfg, spec.Docs, pre); timedOut {
+			return &Violation{Class: "hang", Client: 0, Op: 0, Detail: fmt.Sprintf("the call did not return within %v", hangAfter)}
+		}
 	}
 	v := wfaultOne(spec.Cfg, spec.Docs, op, R, st)
 	if v != nil {
@@ -61,8 +64,37 @@ func runSolo(cfg Config, docs [][]byte, op Op) OpResult {
 	return execOp(env, trees, 0, 0, op, nil)
 }
 
+// hangAfter: an operation that has not returned after this long is reported as a hang. A
+// conversion of these documents takes well under 10 ms; the margin is three orders of
+// magnitude so that a loaded machine cannot produce a false alarm. The stuck goroutine cannot
+// be stopped, so the process reports and exits (see wfaultWorker / cmdExecSpec).
+const hangAfter = 25 * time.Second
+
+var hung bool // a goroutine of this process is stuck; stop after reporting
+
+func runSoloDeadline(cfg Config, docs [][]byte, op Op) (OpResult, bool) {
+	ch := make(chan OpResult, 1)
+	go func() { ch <- runSolo(cfg, docs, op) }()
+	t := time.NewTimer(hangAfter)
+	defer t.Stop()
+	select {
+	case r := <-ch:
+		return r, false
+	case <-t.C:
+		hung = true
+		return OpResult{}, true
+	}
+}
+
 func wfaultOne(cfg Config, docs [][]byte, op Op, R []byte, st *Stats) *Violation {
-	res := runSolo(cfg, docs, op)
+	res, timedOut := runSoloDeadline(cfg, docs, op)
+	if timedOut {
+		if st != nil {
+			st.Inc("evaluations")
+		}
+		return &Violation{Class: "hang", Client: 0, Op: 0, Want: R,
+			Detail: fmt.Sprintf("the call did not return within %v (with a non-failing writer it takes milliseconds): neither an error nor success is reported", hangAfter)}
+	}
 	if res.Skipped {
 		return nil
 	}
@@ -141,7 +173,10 @@ func wfaultGroup(p *wfaultParams, st *Stats, run int, cfg Config, doc []byte, ki
 		after := st.Counters["fired.short+err"] + st.Counters["fired.zero+err"] + st.Counters["fired.full+err"] +
 			st.Counters["fired.always"] + st.Counters["fired.transient"] + st.Counters["fired.short+nil"]
 		if after > before && f != nil {
-			st.Distinct(hashU64(hashU64(hashStr(f.Kind+f.Shape)^groupHash, uint64(f.K)), uint64(f.J)))
+			st.Distinct(hashU64(hashU64(hashStr(f.Kind+f.Shape+"/"+f.Err)^groupHash, uint64(f.K)), uint64(f.J)))
+			if f.Err != "" {
+				st.Inc("errkind." + f.Err)
+			}
 		}
 		if v != nil && p.ctl != nil {
 			p.ctl.capture(mkSpec(op), v)
@@ -157,7 +192,7 @@ func wfaultGroup(p *wfaultParams, st *Stats, run int, cfg Config, doc []byte, ki
 			st.Inc("violations_seen")
 			return false
 		}
-		return true
+		return !hung
 	}
 	// control through this very stack (success must mean complete)
 	if !try(nil) {
@@ -193,6 +228,36 @@ func wfaultGroup(p *wfaultParams, st *Stats, run int, cfg Config, doc []byte, ki
 	}
 	if !try(&FaultPlan{Kind: "always"}) {
 		return
+	}
+	// error KINDS: the same fault delivered as an error value that looks temporary, like a
+	// timeout, like a short write, EOF, closed pipe, EPIPE or an expired deadline (code that
+	// treats some kinds as benign or retryable must still surface the failure)
+	for _, ek := range errKinds[1:] {
+		ks := []int{0, L / 2, L - 1}
+		if L > 4200 {
+			ks = append(ks, 4096, 4097)
+		}
+		for _, k := range ks {
+			if k >= 0 && !try(&FaultPlan{Kind: "short+err", K: k, Err: ek}) {
+				return
+			}
+		}
+		for _, j := range []int{0, calls / 2, calls - 1} {
+			if j < 0 {
+				continue
+			}
+			if !try(&FaultPlan{Kind: "zero+err", J: j, Err: ek}) || !try(&FaultPlan{Kind: "full+err", J: j, Err: ek}) {
+				return
+			}
+			for _, sh := range []string{"zero", "short", "full"} {
+				if !try(&FaultPlan{Kind: "transient", J: j, Shape: sh, Err: ek}) {
+					return
+				}
+			}
+		}
+		if !try(&FaultPlan{Kind: "always", Err: ek}) {
+			return
+		}
 	}
 	// seeded transient and contract-breaking plans
 	if calls > 0 {
